@@ -47,6 +47,7 @@ def run(run):
         run.floor(r, n)
     _r1_paths(run)
     _r2_builder(run)
+    _r2_url_writers(run)
     _r3_levels(run)
     # the level recorded for a (sub-)tiling is the level its tiles are written at: a sub-image tiling must share the
     # geometry of the mosaic it belongs to (decided by C08's geometry rule)
@@ -171,6 +172,51 @@ def _r2_builder(run):
                          kind="url")
         else:
             run.holds("C17.R2", f, None, "%s: file_type = '.' + default format; url = path scheme + file_type" % f.short)
+
+
+def _r2_url_writers(run):
+    """Who may write the image set's Url / FileType: besides the two Builder sites decided above, any store into `<imageset>.url`
+    or `.file_type` anywhere in the package must record the same thing (path scheme + file type) -- a literal or otherwise
+    derived Url no longer expands to the paths the tiles were written to under every naming scheme."""
+    project = run.project
+    checked = {BLD + ".Builder.__init__", BLD + ".Builder.load_from_wwtl"}
+    # one named exception: HiPS pyramids are produced by the external `hipsgen` program in the HiPS directory layout
+    # (Norder/Dir/Npix), not by PyramidIO; their Url is that layout by definition
+    foreign_layout = {"toasty.fits_tiler.FitsTiler._copy_hips_properties_to_builder"}
+    evs = {}
+    for f in project.py_funcs():
+        if f.qual in checked or "/tests/" in f.module.relpath:
+            continue
+        sites = [n for n in own_nodes(f.node) if isinstance(n, (ast.Assign, ast.AugAssign))
+                 for t in (n.targets if isinstance(n, ast.Assign) else [n.target])
+                 if isinstance(t, ast.Attribute) and t.attr in ("url", "file_type") and "imgset" in (dotted(t.value) or "").lower().replace("image_set", "imgset").replace("imageset", "imgset")]
+        if not sites:
+            continue
+        run.note_func(f)
+        if f.qual in foreign_layout:
+            run.holds("C17.R2", f, sites[0], "%s records the layout of tiles written by an external tool (HiPS): outside PyramidIO's naming schemes" % f.short)
+            continue
+        ev = evs.setdefault(f.module.name, sym.make_evaluator(project, f.module.name, []))
+        r = ev.run(f.node)
+        for e in r.events:
+            if e.kind != "store" or e.term[1][0][0] != "attr" or e.term[1][0][2] not in ("url", "file_type"):
+                continue
+            v = e.term[1][1]
+            ok = False
+            if e.term[1][0][2] == "url" and v[0] == "op" and v[1] == "concat":
+                parts = v[2]
+                ok = len(parts) >= 2 and parts[0][0] == "call" and parts[0][1][0] == "attr" and parts[0][1][2] == "get_path_scheme" \
+                    and all((p_[0] == "attr" and p_[2] == "file_type") or p_ == ("const", ".") or (p_[0] == "call" and p_[1][0] == "attr" and p_[1][2] == "get_default_format")
+                            for p_ in parts[1:])
+            if e.term[1][0][2] == "file_type" and v[0] == "op" and v[1] == "concat":
+                ok = len(v[2]) == 2 and v[2][0] == ("const", ".") and v[2][1][0] == "call" and v[2][1][1][0] == "attr" and v[2][1][1][2] == "get_default_format"
+            if ok:
+                run.holds("C17.R2", f, e.node, "%s records %s as scheme + file type" % (f.short, e.term[1][0][2]))
+            else:
+                conds = [show(c[0])[:50] for c in e.pc if c[0] != "loop"]
+                run.violated("C17.R2", f, e.node, "%s overwrites the image set's %s with %s%s: it is no longer `pio.get_path_scheme() + file_type`, so under some naming "
+                             "scheme the WTML points at files that were not written" % (f.short, e.term[1][0][2], show(v)[:80], (" under %s" % conds) if conds else ""),
+                             kind="url-overwritten")
 
 
 def _r3_levels(run):
